@@ -318,6 +318,11 @@ class CallMixin:
     def call_method(self, recv, name, args, kwargs, node, st, recv_node=None):
         if isinstance(recv, VRef):
             qual = f"{recv.cls}.{name}"
+            if self.resolve(qual) and qual in self.funcs and self.is_property(qual) and not name.startswith("__"):
+                # obj.prop(...) where prop is a (cached) property: the attribute read yields the property's VALUE, which is
+                # then called (a non-callable value: TypeError) - not a method call
+                val = self.call_named(qual, [recv], {}, node, st)
+                return self.call_value(val, args, kwargs, node, st)
             if self.resolve(qual):
                 return self.call_named(qual, [recv] + args, kwargs, node, st)
             if self.classes.get(recv.cls, {}).get("boxed_list"):
